@@ -940,10 +940,11 @@ class Interp:
         if op in ("*", "/", "%", "<<", ">>", "&", "|", "^"):
             if isinstance(x, int) and isinstance(y, int) and e.get("cv") is not None:
                 return int(e["cv"])
-            if isinstance(x, int) and isinstance(y, int) and (_is_const(a) or _is_const(b)) \
-                    and op in ("*", "/", "%"):
+            if isinstance(x, int) and isinstance(y, int) and op in ("*", "/", "%") and \
+                    (_is_const(a) or _is_const(b) or self._int_arith_here()):
                 # scaling by a compile-time constant: allowed only where flagged by the caller
-                if not getattr(self, "allow_const_scaling", False):
+                # (allow_int_arith: constant propagation through pure functions of small integer constants)
+                if not (getattr(self, "allow_const_scaling", False) or self._int_arith_here()):
                     raise OutOfFragment("integer %s by a constant - outside the order-type fragment" % op)
                 if op == "*":
                     return fit(x * y, int_type(self.T(e)))
@@ -953,6 +954,16 @@ class Interp:
                 return fit(q if op == "/" else x - q * y, int_type(self.T(e)))
             raise OutOfFragment("arithmetic %s on tracked values - outside the comparison-only fragment" % op)
         raise OutOfFragment("binary operator %s on %r, %r (line %s)" % (op, x, y, e.get("l")))
+
+    def _int_arith_here(self):
+        """Exact integer arithmetic (constant propagation) is admitted everywhere (allow_int_arith) or inside
+        the pure helper functions named in int_arith_scopes, whose callers pass template constants."""
+        if getattr(self, "allow_int_arith", False):
+            return True
+        sc = getattr(self, "int_arith_scopes", ())
+        if sc and self.frames:
+            return self.frames[-1]["__fn__"].qn.startswith(sc)
+        return False
 
     def ev_CompoundAssignOperator(self, e):
         op = e["op"][:-1]
@@ -1169,6 +1180,25 @@ class Interp:
             base = qn.split("<")[0]
             if base in ("std::move", "std::forward", "std::as_const", "std::addressof"):
                 return A[0]
+            if base in ("std::swap", "std::iter_swap") and len(A) == 2:
+                a_, b_ = A
+                if base == "std::iter_swap":
+                    a_, b_ = self.deref(V[0]), self.deref(V[1])
+                if not (isinstance(a_, LV) and isinstance(b_, LV)):
+                    raise OutOfFragment("swap of non-lvalues")
+                x_, y_ = a_.load(), b_.load()
+                if isinstance(x_, Obj) and isinstance(y_, Obj):
+                    x_.fields, y_.fields = y_.fields, x_.fields
+                elif isinstance(x_, Vec) and isinstance(y_, Vec):
+                    x_.items, y_.items = y_.items, x_.items
+                else:
+                    a_.store(y_)
+                    b_.store(x_)
+                return None
+            if base == "std::exchange" and len(A) == 2:
+                old = copy_value(A[0])
+                A[0].store(copy_value(A[1]))
+                return old
             if base in ("std::min", "std::max"):
                 comp = A[2] if len(A) > 2 else None
                 x, y = A[0], A[1]
